@@ -5,7 +5,7 @@ usage: run_seeded.py [seed-id ...]   prints one line per seed: which property ch
 import json, os, subprocess, sys, tempfile, concurrent.futures as cf
 VERIF = os.path.dirname(os.path.dirname(os.path.abspath(__file__)))
 sys.path.insert(0, VERIF)
-seeds = sys.argv[1:] or sorted(os.listdir(os.path.join(VERIF, 'seeded')))
+seeds = sys.argv[1:] or sorted(d for d in os.listdir(os.path.join(VERIF, 'seeded')) if os.path.isdir(os.path.join(VERIF, 'seeded', d)))
 props = sorted(f[:-3].upper() for f in os.listdir(os.path.join(VERIF, 'aylint', 'rules')) if f.startswith('c') and f[1:3].isdigit())
 def one(sid):
     wt = '/tmp/sv/run-' + sid
